@@ -3,6 +3,6 @@ CONSTANTS
   SequentialLoopVars = FALSE
   DiscardedCallIsTail = FALSE
   Fuel = 8
-  Universe = "nestgen"
+  Universe = "unit"
 INVARIANTS RewriteSound UnrecognisedLeftAlone RecognisedIffTail LoweringFaithful FuelExact Emit
 CHECK_DEADLOCK FALSE
